@@ -13,16 +13,34 @@ TRUSTED = [
     "digits, only U+212A lower-cases into ASCII) are audited over all 1 114 112 code points on every run",
     "AST audit: every Call/Subscript/BinOp/Compare/Raise/Assert node of the 49 functions reachable from parser.parse is compared "
     "with the committed table harness/props/c14_sites.json; a new or changed node escalates to the thorough budget and is named",
+    "callee audit: the functions parse() reaches outside _parser.py (tzstr.__init__/_delta, tzrange.transitions, "
+    "tzrangebase.tzname/_isdst/is_ambiguous, tzlocal.*, tzoffset.__init__, enfold, relativedelta.__init__/__add__) are listed with the "
+    "model primitive that stands for each (histograms.callee_functions_and_model_primitives) and their Call/Raise/Subscript/BinOp/"
+    "Compare nodes are compared with harness/props/c14_callee_sites.json; the tables are snapshot diffs (a changed site escalates and "
+    "is named), not a proof that every site is modelled",
+    "shared-state audit: every class-level / module-level assignment, global, store through cls / type(self) / a module-level name "
+    "/ self of the shared DEFAULTPARSER, setattr, caching decorator and mutable default in ALL functions of _parser.py is compared "
+    "with harness/props/c14_shared_state_sites.json; a new one escalates the statefulness streams and is named",
+    "process-zone family: the reference for a call under zone Z is the model's answer for Z AND the implementation's answer in a "
+    "fresh Python process whose only zone is Z (harness/props/_parser_ref.py); a tzlocal result is compared by fold, utcoffset, "
+    "dst, tzname at its wall time and by equality with a tzlocal() built at that moment",
 ]
 ASSUMPTIONS = [
     "decimal context is the default one (prec 28, ROUND_HALF_EVEN, InvalidOperation trapped); sys.int_max_str_digits = 4300",
     "C int is 32 bits (datetime.replace raises OverflowError above 2147483647)",
     "word tables of parserinfo subclasses are ASCII (str.lower is modelled for ASCII + KELVIN SIGN); WEEKDAYS has at most 7 entries",
-    "tzinfos values are tzinfo | valid TZ string | int | None (a float etc. raises TypeError by design; a bad TZ string raises "
-    "tzstr's ValueError; exceptions of a user callable are the user's) — outside the property's domain, modelled anyway",
+    "tzinfos values are tzinfo | TZ string | int | None; a float etc. raises TypeError by design (modelled: TzData.bad); exceptions of "
+    "a user callable or of a user tzinfo object's tzname() are the caller's code, not parse()'s",
+    "a MALFORMED TZ-string value is NOT excluded: tz.tzstr(tzdata) raises a plain ValueError (month 13: IllegalMonthError at "
+    "tzname()) that parse() does not wrap although its docstring promises ParserError 'if the provided tzinfo is not in a valid "
+    "format' — known finding D-C14-tzinfos-bad-tzstring; parse_total carries the hypothesis TzInfos.StringsValid by name and "
+    "parse_bad_tzstring_escapes shows it is needed; bad TZ strings are generated in every stream",
+    "the model's answer is Lean's alone: a TZ string's names for the wall time come from the Lean model of tz.tzstr "
+    "(parser.assignstr); only ENVIRONMENT facts are fed in: time.tzname, the names/offsets a tzlocal() built at that moment "
+    "reports, the names a caller-supplied tzinfo object reports, Python's character classes",
     "undecodable bytes (UnicodeDecodeError) are not text; MemoryError/RecursionError are not modelled",
 ]
-RULE = ("aliasing family (texts whose scan writes into the token list: HH:MM NAME+-N / NAME+-HHMM / +-HHMM (NAME), with and without spaces, in fuzzy sentences, random upper-case names <= 5 letters): each parsed 3x in a row as the same str object, as an equal-but-distinct object, after 3 and after 700 unrelated calls, every answer compared with the first and with the model; same text twice in a row over a slice of every family; malformed stream: random concatenations of date-like words, digit runs of length 1..40 (and 27..31 / 4300-digit runs), "
+RULE = ("process-zone switch family (6 groups of TZ settings sharing time.tzname entries but differing in offset / DST rules / hemisphere / having DST: EST+5EDT vs EST-10EDT vs EST5, AAA0BBB pairs, GMT0BST vs GMT-6BST vs Europe/London, UTC vs UTC+3, IST, CET; texts naming those abbreviations at ordinary, gap and ambiguous wall times, with and without explicit offsets; a -> b -> a switches with time.tzset() on one text, then a shuffled tail; every answer against the model for that zone and a fresh process); aliasing family (texts whose scan writes into the token list: HH:MM NAME+-N / NAME+-HHMM / +-HHMM (NAME), with and without spaces, in fuzzy sentences, random upper-case names <= 5 letters): each parsed 3x in a row as the same str object, as an equal-but-distinct object, after 3 and after 700 unrelated calls, every answer compared with the first and with the model; same text twice in a row over a slice of every family; malformed stream: random concatenations of date-like words, digit runs of length 1..40 (and 27..31 / 4300-digit runs), "
         "separators, signs, Unicode decimal digits / non-decimal digits / letters / spaces / others, NUL, inf/nan words; 1-3 "
         "character edits of valid renderings of 44 templates; valid renderings inside garbage; x dayfirst/yearfirst in "
         "{None,True,False} x fuzzy x fuzzy_with_tokens x ignoretz x 12 tzinfos forms x 10 defaults x {DEFAULTPARSER, 3 stock "
@@ -59,6 +77,12 @@ def gen_calls(ctx, rng, n):
               "10:30 2147483648s", "99999999999999999999s", "0.5h", "1.999999999999999999999999999999999m"]:
         for fz in (False, True):
             calls.append(L.Call(t, fuzzy=fz, fwt=fz, tag="seed"))
+    # texts in which NOTHING is skipped (no blank, no jump word), with fuzzy_with_tokens: the pair must still come back
+    for t in ["10h36m28.5s", "25/09/03", "20030925", "1.5", "2003-09-25T10:49:41", "Sep", "10:36", "20030925T104941", "10:36:28.5",
+              "2003-09-25T10:49:41Z", "0930", "Monday", "99", "1/2/3", "10h", "Sep25", "2003-09-25T10:49:41+03:00"]:
+        calls.append(L.Call(t, fuzzy=True, fwt=True, tag="seed-noskip"))
+        calls.append(L.Call(t, fuzzy=False, fwt=True, tag="seed-noskip"))
+        calls.append(L.Call(t, fuzzy=True, fwt=False, tag="seed-noskip"))
     calls.append(L.Call("Monday", default=datetime.datetime(9999, 12, 31), tag="seed"))
     calls.append(L.Call("Sunday", default=datetime.datetime(9999, 12, 27), tag="seed"))
     return calls
@@ -159,6 +183,37 @@ def correspondence(ctx):
         ctx.escalated = True
         ctx.note("mutation audit: new/changed write or class-level mutable state in the anchored code -> thorough budget: %s" % mnew[:10])
         ctx.count("mutation_sites_new_or_changed", len(mnew))
+    # --- state shared between calls: class-level / module-level names, stores through cls / a module-level name / the shared
+    #     DEFAULTPARSER instance, caching decorators, mutable defaults — in every function of the file
+    ssites = L.ast_shared_state_sites(os.environ.get("DATEUTIL_REPO", "/repo"))
+    try:
+        scommitted = json.load(open(os.path.join(os.path.dirname(SITES_FILE), "c14_shared_state_sites.json")))
+    except Exception:
+        scommitted = {}
+    snew = sorted(k for k in ssites if ssites[k] != scommitted.get(k))
+    ctx.count("shared_state_sites_total", sum(ssites.values()))
+    ctx.hist["shared_state_sites"] = "; ".join(sorted(k for k in ssites if ":class-store:" in k or ":module-store:" in k
+                                                      or ":shared-instance-store:" in k or ":global:" in k
+                                                      or ":caching-decorator:" in k)) or "none"
+    if snew:
+        ctx.escalated = True
+        ctx.note("shared-state audit: new class-level / module-level state or a store into it in the anchored file -> thorough "
+                 "budget for the statefulness streams (aliasing, same-text-twice, process-zone switches): %s" % snew[:10])
+        ctx.count("shared_state_sites_new_or_changed", len(snew))
+    # --- callees outside _parser.py (tz.tzstr / tzrangebase / tzlocal / tzoffset / enfold / relativedelta.__add__)
+    csites, cmissing = L.ast_callee_sites(os.environ.get("DATEUTIL_REPO", "/repo"))
+    try:
+        ccommitted = json.load(open(os.path.join(os.path.dirname(SITES_FILE), "c14_callee_sites.json")))
+    except Exception:
+        ccommitted = {}
+    cnew = sorted(k for k in csites if csites[k] != ccommitted.get(k)) + sorted(k for k in ccommitted if k not in csites)
+    ctx.count("callee_sites_total", sum(csites.values()))
+    ctx.hist["callee_functions_and_model_primitives"] = "; ".join("%s:%s.%s -> %s" % (r, c or "", f, m) for r, c, f, m in L.CALLEES)
+    if cnew or cmissing:
+        ctx.escalated = True
+        ctx.note("callee audit: a function parse() reaches in tz / relativedelta differs from the committed site table -> thorough "
+                 "budget; new/changed/removed: %s; missing functions: %s" % (cnew[:10], cmissing))
+        ctx.count("callee_sites_new_or_changed", len(cnew) + len(cmissing))
     # --- lexer alone
     rng = ctx.subrng("lex")
     from dateutil.parser import _parser
@@ -212,6 +267,63 @@ def correspondence(ctx):
         L.set_tz(prev)
 
 
+# ---- "terminates promptly": how the time of one call grows with the length of the text, per family of long inputs
+SCALING = {
+    'digits': lambda n: '1' * n, 'dotted-digits': lambda n: '1.' * n, 'comma-digits': lambda n: '1,' * n,
+    'letters': lambda n: 'a' * n, 'dotted-letters': lambda n: 'a.' * n, 'words': lambda n: 'ab ' * n,
+    'numbers': lambda n: '1 ' * n, 'dashed-numbers': lambda n: '1-' * n, 'colons': lambda n: ':' * n,
+    'spaces': lambda n: ' ' * n, 'months': lambda n: 'Jan ' * n, 'signs': lambda n: '+-' * n, 'nul': lambda n: '\x00' * n,
+    'fraction': lambda n: '10:00:00.' + '1' * n, 'time-then-words': lambda n: '10:00 ' + 'x ' * n,
+    'unicode-digits': lambda n: '\u0663' * n, 'hms-letters': lambda n: '1h' * n,
+}
+SUPERLINEAR_KNOWN = {'digits', 'unicode-digits', 'dotted-digits', 'dotted-letters'}      # D-C14-superlinear-time
+FUZZY_SCALING = {'words', 'time-then-words', 'signs', 'colons', 'months', 'dotted-letters', 'letters'}
+
+
+def scaling(ctx, cap):
+    """doubling experiment per family: CPU time of one call at n, 2n, 4n, ... (until a call costs more than `cap` seconds or
+    n reaches 2^18); the growth exponent is log2 of the last ratio whose smaller time is above the noise floor.  Linear
+    scanning gives 1; the lexer's `tokenstack.pop(0)` / `Decimal(str)` give 2."""
+    import math
+    from dateutil import parser as P
+    def cost(txt, fz):
+        best = None
+        for k in range(3):
+            t0 = time.process_time()
+            try:
+                P.parse(txt, fuzzy=fz)
+            except BaseException as e:
+                if isinstance(e, (KeyboardInterrupt, SystemExit, MemoryError)):
+                    raise
+            d = time.process_time() - t0
+            best = d if best is None else min(best, d)
+            if best < 0.003:
+                break                        # below the noise floor: not used for the exponent anyway
+        return best
+    for name, f in SCALING.items():
+        for fz in ((False, True) if name in FUZZY_SCALING else (False,)):
+            n, pts = 2048, []
+            while n <= 2 ** 18:
+                t = cost(f(n), fz)
+                pts.append((n, t))
+                ctx.evaluations += 1
+                if t > cap:
+                    break
+                n *= 2
+            big = [p for p in pts if p[1] >= 0.004][-3:]       # the last (up to) two doublings above the noise floor
+            expo = (math.log(big[-1][1] / big[0][1]) / math.log(big[-1][0] / big[0][0])) if len(big) >= 2 else 1.0
+            key = "%s%s" % (name, "+fuzzy" if fz else "")
+            ctx.hist["scaling_exponent_" + key] = round(expo, 2)
+            ctx.hist["scaling_longest_" + key] = "%d chars: %.3f s" % (len(f(pts[-1][0])), pts[-1][1])
+            ctx.case(("scaling", key), nontrivial=True)
+            if expo > 1.7:
+                case = {"text": None, "family": name, "fuzzy": fz, "generator": "harness/props/c14.py SCALING[%r]" % name,
+                        "points": [[a, round(b, 4)] for a, b in pts], "exponent": round(expo, 2),
+                        "known_class": "D-C14-superlinear-time" if (name in SUPERLINEAR_KNOWN and expo < 2.5) else None}
+                ctx.violation("parse() does not terminate promptly: time grows like n^%.1f on the '%s' family" % (expo, name), case,
+                              {"impl": "n^%.2f" % expo})
+
+
 def classify(ans):
     return ans.startswith(ALLOWED)
 
@@ -229,14 +341,15 @@ def oracle(ctx):
                 seeds.append(L.Call(m["input"]["text"], tag="mismatch"))
         for tzenv in ["UTC", "America/New_York"]:
             L.set_tz(tzenv)
-            calls = seeds + gen_calls(ctx, rng, ctx.budget(30000, 200000))
+            calls = seeds + gen_calls(ctx, rng, ctx.budget(22000, 200000))
             # slices of the other checks' generator families (valid renderings x offsets; partial texts x zone texts)
             from props import c15 as _c15
             for _ in range(ctx.budget(2500, 20000)):
                 t = rng.choice(G.TEMPLATES)
                 txt = G.render(t, G.boundary_dt(rng), rng.choice(G.OFFSETS) if t['time'] else None)
+                fw = rng.random() < 0.3             # valid renderings mostly have NO skipped token: the pair must still come back
                 calls.append(L.Call(txt, default=rng.choice(G.DEFAULTS), dayfirst=t['flags'].get('dayfirst'),
-                                    yearfirst=t['flags'].get('yearfirst'), tag="template"))
+                                    yearfirst=t['flags'].get('yearfirst'), fuzzy=fw, fwt=fw, tag="template"))
             for _ in range(ctx.budget(2500, 20000)):
                 ptxt, fields, _wd = _c15.partial(rng)
                 z = rng.choice(_c15.ZONES)[0] if 'hour' in fields else ''
@@ -249,14 +362,7 @@ def oracle(ctx):
             for c in calls:
                 ans, dt, raw = L.run_impl(c, raw=True)
                 first.append(ans)
-                ok = classify(ans)
-                if ok and ans.startswith("ok "):
-                    # the value really is a datetime / (datetime, tuple of str)
-                    if c.fwt:
-                        ok = (isinstance(raw, tuple) and len(raw) == 2 and isinstance(raw[0], datetime.datetime)
-                              and isinstance(raw[1], tuple) and all(isinstance(x, str) for x in raw[1]))
-                    else:
-                        ok = isinstance(raw, datetime.datetime)
+                ok = classify(ans)                  # a value of the wrong shape for the options is "shape …": not allowed
                 ctx.case(c.key(), nontrivial=ans.startswith("ok "))
                 ctx.count("outcome_" + (ans.split(" ")[1] if ans.startswith("err") else "datetime"))
                 ctx.count("via_" + c.via)
@@ -267,8 +373,19 @@ def oracle(ctx):
                 if pc > worst_per_char[0]:
                     worst_per_char = (pc, ascii(c.text)[:80])
                 if not ok:
+                    m = L.model_answers(ctx, [c])[0]
+                    case = c.describe()
+                    # D-C14-tzinfos-bad-tzstring: exactly a plain ValueError, the Lean model (whose only ValueError source is the
+                    # TZ-string constructor / its transitions) says the same, and tzinfos does carry a TZ-string value
+                    exact = (ans == "err ValueError" and m == ans and not c.ignoretz
+                             and any(v[0] == "s" for v in list(c.tz.entries.values()) + [c.tz.dflt]))
+                    case["known_class"] = "D-C14-tzinfos-bad-tzstring" if exact else None
+                    if exact:
+                        ctx.count("known_class_D-C14-tzinfos-bad-tzstring_hits")
+                        if ctx.hist["known_class_D-C14-tzinfos-bad-tzstring_hits"] > 25:
+                            continue
                     ctx.violation("parse() outcome outside {datetime, (datetime, tuple), ParserError, OverflowError}: %s" % ans[:80],
-                                  c.describe(), {"impl": ans})
+                                  case, {"impl": ans, "model": m})
             # "same text twice": the second call of a slice of every generator family, right after the first
             imm = [(j, c) for j, c in enumerate(calls) if c.via != "stream"]
             for j, c in rng.sample(imm, min(len(imm), ctx.budget(8000, 60000))):
@@ -325,6 +442,10 @@ def oracle(ctx):
                 if a != a0:
                     ctx.violation("parse() is not a function of its arguments: parse after many unrelated calls differs",
                                   c.describe(), {"first": a0, "later": a, "model": m})
+        # ---- the process-zone switch family: zones that share an abbreviation, time.tzset() between calls and back; every
+        #      answer against the model for that zone and against a fresh process whose only zone that was
+        L.zone_switch_run(ctx, ctx.subrng("zone-switch"), G.ZONE_GROUPS, ctx.budget(60, 500), "parse() is not a function of its "
+                          "arguments and the process time zone")
         L.set_tz("UTC")
         # non-text input
         for x in NON_TEXT:
@@ -352,6 +473,7 @@ def oracle(ctx):
             ctx.case(("default-none", t), nontrivial=False)
             if got != "ok":
                 ctx.violation("default=None: %s" % got, {"text": t, "default": None})
+        scaling(ctx, 0.06 if not ctx.budget(0, 1) else 0.6)
     finally:
         L.set_tz(prev)
     ctx.hist["max_call_wall_ms"] = round(worst[0] * 1000, 3)
@@ -365,14 +487,34 @@ def oracle(ctx):
                 "impl": L.run_impl(L.Call("Today is January 1, 2047 at 8:21:00AM", fwt=True))[0]})
 
 
-KNOWN = {}
+KNOWN = {"D-C14-superlinear-time": lambda v: v["case"].get("known_class") == "D-C14-superlinear-time"
+         and v["case"].get("family") in SUPERLINEAR_KNOWN and 1.7 < v["case"].get("exponent", 0) < 2.5,
+         "D-C14-tzinfos-bad-tzstring": lambda v: v["case"].get("known_class") == "D-C14-tzinfos-bad-tzstring"
+         and v["detail"].get("impl") == "err ValueError" and v["detail"].get("model") == "err ValueError"}
 
 
 def replay(ctx, payload):
     c = payload["violation"]["case"]
-    if c.get("text") is None:
+    if c.get("text") is None and c.get("family") not in SCALING:
         print("non-text case: see harness/props/c14.py NON_TEXT")
         return False
+    if c.get("TZ_sequence") is not None:
+        return L.zone_switch_replay(ctx, c)
+    if c.get("family") in SCALING:
+        import math
+        from dateutil import parser as P
+        f = SCALING[c["family"]]
+        ts = []
+        for n in (8192, 16384, 32768):
+            t0 = time.process_time()
+            try:
+                P.parse(f(n), fuzzy=bool(c.get("fuzzy")))
+            except Exception:
+                pass
+            ts.append(time.process_time() - t0)
+        expo = math.log2(max(ts[2], 1e-6) / max(ts[1], 1e-6))
+        print("family %s: CPU time at 8192/16384/32768 repetitions = %s -> exponent %.2f" % (c["family"], ["%.3f" % t for t in ts], expo))
+        return expo <= 1.7
     call = L.call_from_case(c)
     prev = L.set_tz(c.get("TZ") or "UTC")
     try:
